@@ -2,6 +2,7 @@ package evm
 
 import (
 	"errors"
+	"math"
 	"strconv"
 
 	errorsmod "cosmossdk.io/errors"
@@ -159,6 +160,11 @@ func (vbd EthValidateBasicDecorator) AnteHandle(ctx sdk.Context, tx sdk.Tx, simu
 			return ctx, errorsmod.Wrapf(errortypes.ErrInvalidRequest, "invalid From %s, expect empty string", msgEthTx.From)
 		}
 
+		// the gas limit of the tx is the sum of the gas limits of its messages: it must not wrap around
+		// and, like the gas limit of every other tx, it has to fit an int64
+		if msgGas := msgEthTx.GetGas(); msgGas > math.MaxInt64 || txGasLimit > math.MaxInt64-msgGas {
+			return ctx, errorsmod.Wrap(evmtypes.ErrGasOverflow, "sum of the messages' gas limits must be less than math.MaxInt64")
+		}
 		txGasLimit += msgEthTx.GetGas()
 
 		txData, err := evmtypes.UnpackTxData(msgEthTx.Data)
